@@ -46,6 +46,10 @@ def denote : Sp → FieldDecl
   | .dict585 k v | .dictTyping k v | .mapSub k v | .mapCall k v => .mapOf (denote k) (denote v) {}
   | .optional x => .anyOf [denote x, .noneF]
   | .union x y | .anyOf x y | .pipe x y => .anyOf [denote x, denote y]
+  /- "a Structure class can be used as a field type": a reference to that class -/
+  | .scls d _ => d
+  /- "c is a tuple of 3: integer, string, float: Tuple[Integer, String, Float]" - one field per position -/
+  | .tup585 x y | .tupTyping x y | .tupSub x y | .tupCall x y => .tuplePos [denote x, denote y] false
 
 /-! ### the spelling forms of one meaning -/
 
@@ -68,6 +72,10 @@ def mkColl : CollForm → Coll → Sp → Sp
 def mkDict : CollForm → Sp → Sp → Sp
   | .pep585, k, v => .dict585 k v | .typing, k, v => .dictTyping k v | .sub, k, v => .mapSub k v
   | .call, k, v => .mapCall k v
+
+def mkTup : CollForm → Sp → Sp → Sp
+  | .pep585, x, y => .tup585 x y | .typing, x, y => .tupTyping x y | .sub, x, y => .tupSub x y
+  | .call, x, y => .tupCall x y
 
 inductive AltForm where | union | anyOf | pipe
 deriving Repr, DecidableEq
@@ -95,14 +103,41 @@ inductive SameMeaning : Sp → Sp → Prop where
   | altOptional (f : AltForm) {x y : Sp} : SameMeaning x y → SameMeaning (mkAlt f x .noneLit) (.optional y)
   | alt (f g : AltForm) {x x' y y' : Sp} :
       SameMeaning x x' → SameMeaning y y' → SameMeaning (mkAlt f x y) (mkAlt g x' y')
+  /-- a Structure class is named in one way only (`len`: the same class under names of different length) -/
+  | scls (d : FieldDecl) (n m : Nat) : SameMeaning (.scls d n) (.scls d m)
+  /-- `tuple[X, Y] ~ typing.Tuple[X, Y] ~ Tuple[X, Y] ~ Tuple(items=[X, Y])` -/
+  | tup (f g : CollForm) {x x' y y' : Sp} :
+      SameMeaning x x' → SameMeaning y y' → SameMeaning (mkTup f x y) (mkTup g x' y')
 
 /-! ### the supported region -/
 
 /-- the expression evaluates to a Field class or instance -/
 def isFieldExpr : Sp → Bool
   | .fcls _ | .finst _ | .lit _ _ | .bareCls _ | .bareInst _ | .sub _ _ | .call _ _
-  | .mapBare | .mapInst | .mapSub _ _ | .mapCall _ _ | .anyOf _ _ => true
+  | .mapBare | .mapInst | .mapSub _ _ | .mapCall _ _ | .anyOf _ _ | .tupSub _ _ | .tupCall _ _ => true
   | .pipe x _ => isFieldExpr x
+  | _ => false
+
+/-- the expression is the name of a Structure class (usable wherever a Field class is, except that it has no
+    `|` operator of its own and no call form) -/
+def isStructSp : Sp → Bool
+  | .scls _ _ => true
+  | _ => false
+
+/-- `Owner | …` between plain types: evaluates to a `types.UnionType` whose first member is a Structure class -/
+def structFirstPipe : Sp → Bool
+  | .pipe x _ => isStructSp x || structFirstPipe x
+  | _ => false
+
+/-- usable as an ARGUMENT of a typedpy field (`Array[·]`, `Map[·, ·]`, `AnyOf[·, ·]`, `Tuple[·, ·]`): everything but a
+    Structure-first PEP 604 union (finding `pep604-structure-first-nested`: RecursionError) -/
+def itemOk (s : Sp) : Bool := !structFirstPipe s
+
+/-- a Field or a Structure class: what `items=` and a plain assignment are documented to take -/
+def isFieldOrStruct (s : Sp) : Bool := isFieldExpr s || isStructSp s
+
+def isStructDecl : FieldDecl → Bool
+  | .struct _ _ _ => true
   | _ => false
 
 /-- the expression evaluates to a `typing.Union` (which an enclosing `Union` / `Optional` flattens) -/
@@ -115,7 +150,9 @@ def unionLike : Sp → Bool
 /-- the expression evaluates to a builtin class or a PEP-585 alias (`type.__or__` applies) -/
 def plainSp : Sp → Bool
   | .builtin k => k != .any
-  | .bareBuiltin _ | .dictBare | .pep585 _ _ | .dict585 _ _ => true
+  | .bareBuiltin _ | .dictBare | .pep585 _ _ | .dict585 _ _ | .tup585 _ _ => true
+  /- a Structure class is a plain class as far as `|` is concerned -/
+  | .scls _ _ => true
   | _ => false
 
 def isNoneLit : Sp → Bool
@@ -137,17 +174,24 @@ def supported (tm : TypeMap) : Sp → Bool
   | .builtin _ | .fcls _ | .finst _ | .lit _ _ => true
   | .noneLit => false
   | .bareBuiltin c | .bareTyping c | .bareCls c | .bareInst c => c != .tuple
-  | .pep585 _ x | .typingG _ x | .sub _ x => supported tm x
-  | .call _ x => supported tm x && isFieldExpr x
+  | .pep585 _ x | .typingG _ x => supported tm x
+  | .sub _ x => supported tm x && itemOk x
+  /- `Tuple(items=Owner)` is the finding `tuple-items-structure-class` -/
+  | .call c x => supported tm x && (isFieldExpr x || (isStructSp x && c != .tuple))
   | .dictBare | .tDictBare | .mapBare | .mapInst => true
-  | .dict585 k v | .dictTyping k v | .mapSub k v => supported tm k && supported tm v
-  | .mapCall k v => supported tm k && supported tm v && isFieldExpr k && isFieldExpr v
+  | .dict585 k v | .dictTyping k v => supported tm k && supported tm v
+  | .mapSub k v => supported tm k && supported tm v && itemOk k && itemOk v
+  | .mapCall k v => supported tm k && supported tm v && isFieldOrStruct k && isFieldOrStruct v
+  | .scls d _ => isStructDecl d
+  | .tup585 x y | .tupTyping x y => supported tm x && supported tm y
+  | .tupSub x y => supported tm x && supported tm y && itemOk x && itemOk y
+  | .tupCall x y => supported tm x && supported tm y && isFieldExpr x && isFieldExpr y
   | .optional x => supported tm x && !unionLike x
   /- `None` may be either member (`Union[None, int]`, `AnyOf[None, Integer]`, `None | int`) -/
   | .union x y =>
     (isNoneLit x || (supported tm x && !unionLike x)) && (isNoneLit y || (supported tm y && !unionLike y))
     && distinctObjs tm x y
-  | .anyOf x y => (isNoneLit x || supported tm x) && (isNoneLit y || supported tm y)
+  | .anyOf x y => (isNoneLit x || (supported tm x && itemOk x)) && (isNoneLit y || (supported tm y && itemOk y))
   | .pipe x y =>
     if isNoneLit x then supported tm y && plainRightSp y && !unionLike y
     else supported tm x
@@ -198,7 +242,7 @@ def fieldSupported (O : Oracles) (tm : TypeMap) (_future : Bool) (fs : FieldSp) 
   supported tm fs.ty
   && (match fs.mode with
       | .ann => true
-      | .assign => isFieldExpr fs.ty)
+      | .assign => isFieldOrStruct fs.ty)
   && (match fs.dflt with
       | .none => true
       | .eq v _ => eqDefault v && fs.mode == .ann
@@ -213,10 +257,13 @@ def documentedSp : Sp → Bool
   | .noneLit => false
   | .bareBuiltin c | .bareTyping c | .bareCls c | .bareInst c => c != .tuple
   | .pep585 _ x | .typingG _ x | .sub _ x => documentedSp x
-  | .call _ x => documentedSp x && isFieldExpr x
+  | .call _ x => documentedSp x && isFieldOrStruct x
   | .dictBare | .tDictBare | .mapBare | .mapInst => true
   | .dict585 k v | .dictTyping k v | .mapSub k v => documentedSp k && documentedSp v
-  | .mapCall k v => documentedSp k && documentedSp v && isFieldExpr k && isFieldExpr v
+  | .mapCall k v => documentedSp k && documentedSp v && isFieldOrStruct k && isFieldOrStruct v
+  | .scls d _ => isStructDecl d
+  | .tup585 x y | .tupTyping x y | .tupSub x y => documentedSp x && documentedSp y
+  | .tupCall x y => documentedSp x && documentedSp y && isFieldOrStruct x && isFieldOrStruct y
   | .optional x => documentedSp x
   | .union x y | .anyOf x y | .pipe x y =>
     (isNoneLit x || documentedSp x) && (isNoneLit y || documentedSp y) && !(isNoneLit x && isNoneLit y)
@@ -225,7 +272,7 @@ def documentedSp : Sp → Bool
     expression, `default=` sits in a call of a Field class, defaults are scalar literals -/
 def documentedField (fs : FieldSp) : Bool :=
   documentedSp fs.ty
-  && (match fs.mode with | .ann => true | .assign => isFieldExpr fs.ty)
+  && (match fs.mode with | .ann => true | .assign => isFieldOrStruct fs.ty)
   && (match fs.dflt with
       | .none => true
       | .eq v _ => eqDefault v && fs.mode == .ann
@@ -251,5 +298,51 @@ def fieldSupportedAt (O : Oracles) (tm : TypeMap) (sc : Scope) (future : Bool) (
 
 def classSupported (O : Oracles) (tm : TypeMap) (c : ClassSp) : Bool :=
   c.fields.all (fieldSupportedAt O tm c.scope c.future)
+
+/-! ### typing's flattening of directly nested unions -/
+
+/-- documented (typing): "Unions of unions are flattened" - the alternatives of a tree of `Union[…]` / `Optional[…]`,
+    left to right; a leaf contributes its own meaning, `None` the NoneField -/
+def flatAlts : Sp → List FieldDecl
+  | .optional x => flatAlts x ++ [.noneF]
+  | .union x y => flatAlts x ++ flatAlts y
+  | .noneLit => [.noneF]
+  | s => [denote s]
+
+def isUnionTree : Sp → Bool
+  | .optional _ | .union _ _ => true
+  | _ => false
+
+/-- the leaves are supported spellings that are not themselves unions (or `None`) -/
+def leavesOk (tm : TypeMap) : Sp → Bool
+  | .optional x => leavesOk tm x
+  | .union x y => leavesOk tm x && leavesOk tm y
+  | .noneLit => true
+  | s => supported tm s && !unionLike s
+
+/-- the typing-level objects of the leaves, left to right -/
+def flatObjs (tm : TypeMap) : Sp → List Obj
+  | .optional x => flatObjs tm x ++ [.noneTy]
+  | .union x y => flatObjs tm x ++ flatObjs tm y
+  | .noneLit => [.noneTy]
+  | s => match ev tm s with
+    | .ok o => [o]
+    | .error _ => []
+
+/-- no two of the objects are `==` (typing would skip the redundant one) -/
+def allDistinct : List Obj → Bool
+  | [] => true
+  | x :: xs => xs.all (fun y => !objEq x y) && allDistinct xs
+
+/-- field declarations whose annotation is such a union tree (no default): outside `fieldSupported`, covered by
+    `C13.elabField_flatten` -/
+def flatRegion (tm : TypeMap) (fs : FieldSp) : Bool :=
+  fs.mode == .ann && isUnionTree fs.ty && leavesOk tm fs.ty && allDistinct (flatObjs tm fs.ty)
+  && (match fs.dflt with | .none => true | _ => false)
+
+/-- documented meaning there: the flattened AnyOf; optional iff `None` is one of the flattened alternatives or the
+    name is listed in `_optional` -/
+def flatMeaning (fs : FieldSp) : FieldRes :=
+  .field (.anyOf (flatAlts fs.ty)) (!((flatAlts fs.ty).any isNoneF || fs.inOptional)) none
 
 end Typedpy.Elab
